@@ -14,7 +14,7 @@ from ..baseclass import ndpoly
 
 HEADER_REGEX = re.compile(
     HEADER_TEMPLATE.format(
-        version=r"\S+", names=r"(\S+)", keys=r"(\S+)", shape=r"(\S+)"
+        version=r"\S+", names=r"(\S+)", keys=r"(\S+)", shape=r"(\S*)"
     )
 )
 
@@ -129,7 +129,10 @@ def loadtxt(
         groups = match.groups()
         names = tuple(groups[0].split(","))
         keys = groups[1].split(",")
-        shape = [int(idx) for idx in groups[2].split(",")]
+        shape = [int(idx) for idx in groups[2].split(",") if idx]
+        # one row per element, one column per key; numpy.loadtxt drops axes of
+        # length one (single element, single key)
+        array = numpy.reshape(array, (-1, len(keys)))
         dtype = numpy.dtype([(key, array.dtype) for key in keys])
         struct = unstructured_to_structured(array, dtype)
         array = numpoly.polynomial(struct, names=names)
